@@ -66,6 +66,11 @@ class Json:
                 for k in rng.sample(['size', 'shape', 'max', 'mean', 'ndim', 'T'] + list(a['dims']), rng.randint(1, 2)):
                     a['attrs'][k] = rng.choice(['big', 2.5, 7])
                 stats['json_meta_member_names']['yes'] += 1
+            if rng.random() < 0.2:
+                # ... or names of constructor parameters (metadata is restored onto the new object, it is not a constructor argument)
+                for k in rng.sample(['dtype', 'labels', 'copy', '_indexing', 'dims', 'axes', 'values'], rng.randint(1, 2)):
+                    a['attrs'][k] = {'dtype': 'int16', 'copy': False, '_indexing': 'position'}.get(k, rng.choice(['kept', 2.5]))
+                stats['json_meta_ctor_param_names']['yes'] += 1
             stats['json_dtype'][dt] += 1; stats['json_ndim'][nd] += 1
             stats['json_empty'][str(0 in [len(l) for l in a['labels']])] += 1
             cases.append({'arr': a})
